@@ -3,6 +3,8 @@
 use serde::{Deserialize, Serialize};
 
 use crate::boardsim::{self, BoardPlan};
+use crate::enginesim::{self, EnginePlan};
+use crate::linesim::{self, LinePlan};
 use crate::common::RunResult;
 use crate::refchess::Pos;
 
@@ -10,6 +12,8 @@ use crate::refchess::Pos;
 #[serde(tag = "sim")]
 pub enum Plan {
     Board(BoardPlan),
+    Engine(EnginePlan),
+    Line(LinePlan),
 }
 
 pub struct CheckDef {
@@ -35,7 +39,22 @@ const BOARD_ASSUME: &[&str] = &[
 ];
 const BOARD_RULE: &str = "one run = one seeded plan (start FEN from a curated pool with randomised clocks + 30..400 operations: play / probe-all-pseudo-legal / take-back / move strings of every class / move lists with an injected bad move / SAN / checkpoint-restore via FEN / corrupted FEN / jump / transpose / variant) executed on ONE live Bitboard and cross-checked against the reference model after every operation; a run is non-trivial if it executed >= 10 operations or >= 3 moves; distinct = distinct event-log hash (moves played, take-backs, restores, final position)";
 
+const ENGINE_REAL: &[&str] = &["inkayaku_uci::console::ConsoleUciRx::start loop + CommandParser", "inkayaku_engine_core::Engine::accept + std::sync::mpsc channel + search thread (Search::idle/go/best_move/search_negamax/search_quiescence/check_messages)", "inkayaku_uci::console::ConsoleUciTx formatting", "inkayaku_board (all of it, through the search)"];
+const ENGINE_STUB: &[&str] = &["stdin/stdout (the read / consumer closures ConsoleUciRx::new and ConsoleUciTx::new already take)", "OS clock (verif::now hook -> simulated clock, a pure function of the plan and the search's own node counter)", "OS scheduler (three real threads parked and released one at a time by the lock-step scheduler)", "the GUI (simulated protocol-conformant actor)", "engine_app/src/main.rs (30 lines of wiring mirrored by the harness; setoption is parsed but not dispatched because Engine::accept is todo!() for it)"];
+const ENGINE_ASSUME: &[&str] = &[
+    "reference chess model and reference UCI grammars are correct (self-tested)",
+    "the GUI is protocol-conformant: after go it sends only stop/isready/debug/ponderhit/ucinewgame/noise/quit until bestmove arrives",
+    "poll-interval knob >= 512 so that iteration 1 always completes before the first poll, as with the shipped constant 100000",
+    "all cross-thread effects go through the mpsc channel and the UciTx sink, both only touched by the released thread",
+];
+const ENGINE_RULE: &str = "one run = one seeded session plan on ONE engine instance: 1..8 cycles of [ucinewgame] position(startpos|fen, moves | follow engine's own bestmove+ponder | broken line) noise go(<any parameter subset/order>) in-search events (stop/quit/isready/debug/corrupted lines at chosen poll node counts, clock jumps, stop queued before go is dequeued) await bestmove; knobs (poll interval, TT capacity, ns per node) re-drawn per run; non-trivial = at least one search ran; distinct = distinct event-log hash (every line fed, parse result, output line with writing thread, park with node/ply/iteration, idle FEN)";
+
 pub const CHECKS: &[CheckDef] = &[
+    CheckDef { id: "C07", sim: "engine", sim_id: 7, quick_runs: 6_000, thorough_runs: 120_000, level: "exploration", rule: ENGINE_RULE, assumptions: ENGINE_ASSUME, real: ENGINE_REAL, stubbed: ENGINE_STUB, exit_on_violation: true },
+    CheckDef { id: "C16", sim: "engine", sim_id: 16, quick_runs: 6_000, thorough_runs: 120_000, level: "exploration", rule: ENGINE_RULE, assumptions: ENGINE_ASSUME, real: ENGINE_REAL, stubbed: ENGINE_STUB, exit_on_violation: true },
+    CheckDef { id: "C15", sim: "line", sim_id: 15, quick_runs: 4_000, thorough_runs: 120_000, level: "exploration", rule: "7 of 8 runs (LineSim): 300..600 command lines per run - grammar-generated with random spacing / parameter order / subsets, token- and byte-mutated (flip, drop, duplicate, swap, truncate, oversized numbers, bad move tokens, upper case, non-ASCII, duplicated go parameter), or arbitrary bytes - fed through the real ConsoleUciRx::start reader loop, each parse result compared with a reference parser (Exactly / MustErr / Unspecified), plus a 2048-triple slice of the 64x64x6 move-text space checked for display-parse round trip; 1 of 8 runs (EngineSim): a whole engine session whose lines travel through the same seam, so a panic kills the reader thread as in production and a misread shows by its effect; non-trivial = >= 10 lines; distinct = distinct hash of (line, parse result) sequence", assumptions: &["reference UCI parser sim/src/uciref.rs is correct (written from the UCI text and the behaviours pinned by the existing parser tests)", "separators are blanks only; tabs and grey-area syntax (signs, leading zeros, upper-case promotion letters) are classified Unspecified and only required not to panic and not to turn into a different command"], real: &["inkayaku_uci::console::ConsoleUciRx::start / read_next_command", "inkayaku_uci::parser::CommandParser", "inkayaku_uci::UciMove FromStr/Display", "inkayaku_core Square::from_chars, Fen::from_str"], stubbed: &["stdin (read closure)", "the engine behind on_command (LineSim runs); real engine in the EngineSim share"], exit_on_violation: true },
+    CheckDef { id: "C08", sim: "engine_exact", sim_id: 8, quick_runs: 2_400, thorough_runs: 60_000, level: "exploration", rule: "one run = one session of 2..9 cycles `position ...; go depth d` (d = 1..3, or 2N-1 on a position with a reference-proven mate in N) on ONE engine instance with randomised knobs (TT capacity down to 1, poll interval, node cost); after every cycle the reported score must equal the exact minimax value computed by the reference alpha-beta search (no TT/killers/PV reuse) with the engine's own static evaluation at the leaves, and the announced move must attain it; distinct = distinct event-log hash", assumptions: ENGINE_ASSUME, real: ENGINE_REAL, stubbed: ENGINE_STUB, exit_on_violation: true },
+    CheckDef { id: "C09", sim: "engine_interrupt", sim_id: 9, quick_runs: 96, thorough_runs: 3_000, level: "fault_enumeration", rule: "one run = one plan (position, go depth d, poll interval 512): a dry run yields the poll node counts p1<..<pn (every node count at which the abort flag can be observed); the plan is then executed once per p_i (all of them up to 400, evenly thinned above) and per interrupt kind (stop, quit, simulated-clock movetime expiry), each followed by go depth 1 WITHOUT position, two more interrupted searches and go depth 1 again; evaluations = interrupted sessions executed; distinct = distinct (plan, interruption point, kind) event-log hashes", assumptions: ENGINE_ASSUME, real: ENGINE_REAL, stubbed: ENGINE_STUB, exit_on_violation: true },
     CheckDef { id: "C01", sim: "board", sim_id: 1, quick_runs: 24_000, thorough_runs: 400_000, level: "exploration", rule: BOARD_RULE, assumptions: BOARD_ASSUME, real: BOARD_REAL, stubbed: BOARD_STUB, exit_on_violation: false },
     CheckDef { id: "C02", sim: "board", sim_id: 2, quick_runs: 24_000, thorough_runs: 400_000, level: "exploration", rule: BOARD_RULE, assumptions: BOARD_ASSUME, real: BOARD_REAL, stubbed: BOARD_STUB, exit_on_violation: false },
     CheckDef { id: "C03", sim: "board", sim_id: 3, quick_runs: 24_000, thorough_runs: 400_000, level: "exploration", rule: BOARD_RULE, assumptions: BOARD_ASSUME, real: BOARD_REAL, stubbed: BOARD_STUB, exit_on_violation: false },
@@ -52,17 +71,45 @@ pub fn find(id: &str) -> Option<&'static CheckDef> {
 
 pub struct Ctx {
     pub pool: Vec<Pos>,
+    pub mates: Vec<(Pos, u32)>,
 }
 
 impl Ctx {
     pub fn new() -> Self {
-        Ctx { pool: crate::pool::pool() }
+        let pool = crate::pool::pool();
+        let mut mates = Vec::new();
+        for (f, _) in crate::pool::MATES {
+            if let Ok(p) = Pos::from_fen(f) {
+                if !p.is_sane() {
+                    continue;
+                }
+                for q in [p.clone(), p.flip()] {
+                    for n in 1..=3u32 {
+                        if !crate::refchess::search::mate_in(&q, n).is_empty() {
+                            mates.push((q.clone(), n));
+                            break;
+                        }
+                    }
+                }
+            }
+        }
+        Ctx { pool, mates }
     }
 }
 
 pub fn gen_plan(def: &CheckDef, ctx: &Ctx, seed: u64, thorough: bool) -> Plan {
     match def.sim {
         "board" => Plan::Board(boardsim::gen_plan(def.id, seed, thorough, &ctx.pool)),
+        "engine" => Plan::Engine(enginesim::gen_plan(def.id, seed, thorough, &ctx.pool)),
+        "line" => {
+            if seed % 8 == 0 {
+                Plan::Engine(enginesim::gen_plan("C15", seed, thorough, &ctx.pool))
+            } else {
+                Plan::Line(linesim::gen_plan(seed, thorough, &ctx.pool))
+            }
+        }
+        "engine_exact" => Plan::Engine(enginesim::gen_plan_exact(seed, thorough, &ctx.pool, &ctx.mates)),
+        "engine_interrupt" => Plan::Engine(enginesim::gen_plan_interrupt(seed, thorough, &ctx.pool)),
         other => panic!("unknown simulator {}", other),
     }
 }
@@ -70,17 +117,23 @@ pub fn gen_plan(def: &CheckDef, ctx: &Ctx, seed: u64, thorough: bool) -> Plan {
 pub fn exec_plan(plan: &Plan) -> RunResult {
     match plan {
         Plan::Board(p) => boardsim::exec_plan(p),
+        Plan::Engine(p) => enginesim::exec_plan(p),
+        Plan::Line(p) => linesim::exec_plan(p),
     }
 }
 
 pub fn shrink_candidates(plan: &Plan) -> Vec<Plan> {
     match plan {
         Plan::Board(p) => boardsim::shrink_candidates(p).into_iter().map(Plan::Board).collect(),
+        Plan::Engine(p) => enginesim::shrink_candidates(p).into_iter().map(Plan::Engine).collect(),
+        Plan::Line(p) => linesim::shrink_candidates(p).into_iter().map(Plan::Line).collect(),
     }
 }
 
 pub fn plan_size(plan: &Plan) -> usize {
     match plan {
         Plan::Board(p) => p.ops.len(),
+        Plan::Line(p) => p.lines.len() + p.move_sweep.1 as usize,
+        Plan::Engine(p) => p.cycles.iter().map(|c| 4 + c.events.len() + c.pre_lines.len() + c.post_lines.len() + c.jumps.len() + match &c.pos { enginesim::PosSpec::Set { moves, .. } => 1 + moves.len(), _ => 1 } + c.go.depth.unwrap_or(0) as usize).sum(),
     }
 }
